@@ -37,7 +37,9 @@ func seed() int64 {
 	return s
 }
 
-var fragments = []string{"plain", "$X", "${X}", "$$X", `\$X`, "pre-$Y-post", "${Z:-dflt}", "$$$$X", "a $$X b $X", "${X}$$Y"}
+var fragments = []string{"plain", "$X", "${X}", "$$X", `\$X`, "pre-$Y-post", "${Z:-dflt}", "$$$$X", "a $$X b $X", "${X}$$Y",
+	// backslashes before a reference: an escaped backslash does not escape the dollar (`\\$X` is `\` + value)
+	`\\$X`, `\\\$X`, `dir \\${X}\logs`, `\\\\$Y`, `a\b$X`, `$X\\$Y`, `\`, `tail\\`}
 
 // fragCalls counts the string positions a generated pipeline has; when failAt is
 // that ordinal the fragment is an expansion that fails (a required variable that is unset).
@@ -93,7 +95,9 @@ func genPipeline(r *rand.Rand, mapSize int) string {
 	sb.WriteString("    plugins:\n      - " + yamlStr("docker#"+frag(r)) + ":\n          image: " + yamlStr(frag(r)) + "\n" + genMap(r, 2, 1, "          ", &uniq))
 	// plugins without a config: scalar form and explicit null
 	sb.WriteString("      - " + yamlStr("cache#"+frag(r)) + "\n      - " + yamlStr("org/tool#"+frag(r)) + ": ~\n")
-	sb.WriteString("    matrix:\n      setup:\n        os: [" + yamlStr(frag(r)) + ", linux]\n      adjustments:\n        - with: {os: " + yamlStr(frag(r)) + "}\n          soft_fail: " + yamlStr(frag(r)) + "\n")
+	sb.WriteString("    matrix:\n      setup:\n        os: [" + yamlStr(frag(r)) + ", linux]\n      adjustments:\n        - with: {os: " + yamlStr(frag(r)) + "}\n          soft_fail: " + yamlStr(frag(r)) + "\n          skip: " + yamlStr("reason "+frag(r)) + "\n")
+	// cache settings are strings of the pipeline like any other
+	sb.WriteString("    cache:\n      paths: [" + yamlStr(frag(r)) + ", vendor]\n      name: " + yamlStr(frag(r)) + "\n      size: " + yamlStr(frag(r)) + "\n      cache_extra: " + yamlStr(frag(r)) + "\n")
 	sb.WriteString("    signature:\n      algorithm: " + yamlStr("alg-$X") + "\n      signed_fields: [" + yamlStr("command-$X") + "]\n      value: " + yamlStr("$X$$X") + "\n")
 	sb.WriteString("    unknown_field:\n" + genMap(r, mapSize, 1, "      ", &uniq))
 	// other kinds
